@@ -46,6 +46,9 @@ var Catalogue = []string{
 	"Open:error-path-glued@prefix", "Mkdir:error-path-glued@prefix", "Remove:error-path-glued@prefix",
 	// EOF
 	"file.Read:eof-early", "file.ReadAt:missing-eof", "file.Read:short-forever",
+	// the end of file reported as an error that merely wraps io.EOF (every io.Reader consumer compares with ==); this
+	// entry runs on a wrapper with a ReadFile of its own, so that only the suite's own end-of-file checks see it
+	"file.Read:eof-wrapped+ReadFile", "file.ReadAt:eof-wrapped",
 	// correct when called alone, wrong only while another call is in flight (the verdict must not depend
 	// on how many CPUs the machine running the suite has)
 	"concurrent:busy",
@@ -443,6 +446,9 @@ func (f *File) Read(p []byte) (int, error) {
 		p = p[:1]
 	}
 	n, err := f.inner.Read(p)
+	if f.is("file.Read:eof-wrapped+ReadFile") && err == io.EOF {
+		err = &hackpadfs.PathError{Op: "read", Path: f.name, Err: io.EOF}
+	}
 	if f.is("file.Read:bytes") && n > 0 {
 		p[0] ^= 0x20
 	}
@@ -463,6 +469,9 @@ func (f *File) ReadAt(p []byte, off int64) (int, error) {
 	n, err := hackpadfs.ReadAtFile(f.inner, p, off)
 	if f.is("file.ReadAt:bytes") && n > 0 {
 		p[n-1] ^= 0x20
+	}
+	if f.is("file.ReadAt:eof-wrapped") && err == io.EOF {
+		err = &hackpadfs.PathError{Op: "readat", Path: f.name, Err: io.EOF}
 	}
 	if f.is("file.ReadAt:missing-eof") && err == io.EOF {
 		err = nil
@@ -577,3 +586,9 @@ func (f *File) ReadDir(n int) ([]hackpadfs.DirEntry, error) {
 	}
 	return ents, err
 }
+
+// WithReadFile is an FS that also has a ReadFile of its own (served by the reference implementation underneath).
+type WithReadFile struct{ *FS }
+
+// ReadFile implements hackpadfs.ReadFileFS
+func (f WithReadFile) ReadFile(name string) ([]byte, error) { return hackpadfs.ReadFile(f.inner, name) }
